@@ -658,14 +658,36 @@ Proof.
   exists R'. vm_compute in E. injection E as <-. vm_compute. repeat split; reflexivity.
 Qed.
 
-Lemma relink_no_ties_alone_refuted : exists n R R',
-  items_ok n R = true /\ no_ties R = true /\ order_kept R = false /\ lt_consistent R = false /\
-  roundtrip n R = Ok R' /\ skel_eqb R' R = false /\ file_eqb (dump R') (dump R) = false.
+(* CDSCollection.__lt__ with the mirrored containment shortcut (repair of finding F46
+   whole_record_vs_origin_spanning_order): never "less" both ways, for any two locations *)
+Lemma lt_loc_asym : forall a b, lt_loc a b = true -> lt_loc b a = false.
 Proof.
-  exists 300, W_whole.
-  destruct (roundtrip 300 W_whole) as [R'|k] eqn:E; [|vm_compute in E; discriminate].
-  exists R'. vm_compute in E. injection E as <-. vm_compute. repeat split; reflexivity.
+  intros a b. unfold lt_loc, C05.Model.pair_lt.
+  destruct (contains a b); destruct (contains b a); cbn [andb negb]; try discriminate; try reflexivity;
+    intros H; lia.
 Qed.
+
+Lemma no_mutual_asym : forall A (lt : A -> A -> bool), (forall x y, lt x y = true -> lt y x = false) ->
+  forall l, no_mutual lt l = true.
+Proof.
+  intros A lt Hasym l. induction l as [|x r IH]; [reflexivity|]. cbn [no_mutual].
+  rewrite IH, andb_true_r. apply forallb_forall. intros y _.
+  destruct (lt x y) eqn:E; [rewrite (Hasym x y E)|]; reflexivity.
+Qed.
+
+(* hence the class of the former finding is empty: every skeleton is lt_consistent *)
+Lemma lt_consistent_always : forall R, lt_consistent R = true.
+Proof.
+  intros R. unfold lt_consistent.
+  rewrite !no_mutual_asym; [reflexivity| | |]; intros x y; apply lt_loc_asym.
+Qed.
+
+(* the former witness (circular record of 300, a neighbouring candidate covering the whole record as
+   [0:300] and the origin-spanning single candidate of one of its members): now inside the guard,
+   written in stored order and re-read as itself *)
+Lemma relink_whole_record_witness :
+  guard 300 W_whole = true /\ roundtrip 300 W_whole = Ok W_whole.
+Proof. split; vm_compute; reflexivity. Qed.
 
 Lemma area_codec_core : forall l, core_ok l = true ->
   exists t, loc_from_string (loc_str (tloc_of_loc l)) = Ok t /\ loc_of_tloc t = l.
